@@ -19,7 +19,10 @@ STATEFUL_DOCS = [
     "a\n\n\n\nb  \nc \n", "text\twith\ttabs\n", "*emph* _emph_ **strong** __strong__\n", "- [ ] task\n- [x] done\n", "| a | b |\n|---|---|\n| 1 | 2 |\n",
     "Final line without newline", "# T\n\n<b>html</b>\n\n<div>\nblock\n</div>\n", "http://bare.url and <http://auto.link>\n", "![img](/u) ![](/v)\n[empty]()\n",
     "#No space\n\n##  Two spaces\n\n# Closed #\n", "***\n---\n___\n", "Text\n# Heading right after\nMore text\n", "1. one\n\n   para\n2. two\n", "", "\n",
-    "---\ntitle: x\n---\n\n# h\n", "A very long line " * 8 + "\n", "`code ` and ` code`\n\n[link ]( /u )\n",
+    "---\ntitle: x\n---\n\n# h\n",
+    # a document whose tokenization fails AFTER pragma lines were collected (the run continues with --continue-on-error)
+    "<!-- pyml disable-num-lines 50 md012,md009,md013,md041,md047,md022,md001-->\n\ntext\n\n- \t1. \n",
+    "<!-- pyml disable-next-line md041-->\ntext\n\n[r]: /u\n\n-\t\n", "A very long line " * 8 + "\n", "`code ` and ` code`\n\n[link ]( /u )\n",
 ]
 
 
@@ -184,18 +187,21 @@ def run(ctx):
         byrule.setdefault(p.split(os.sep)[0], []).append(t)
     picks = []
     for r, ts in byrule.items():
-        picks += docs.sample(ctx.rng, ts, 1 if ctx.quick() else 2)
+        picks += docs.hash_slice(ts, 2)          # seed-independent: the pool is the same in both tiers
     texts = list(dict.fromkeys(STATEFUL_DOCS + picks))
     pool = {f"p{i:03d}.md": t for i, t in enumerate(texts)}
     names = list(pool)
     pairs = list(itertools.permutations(names, 2))
-    triples = [tuple(ctx.rng.sample(names, 3)) for _ in range(60 if ctx.quick() else 800)]
+    import random as _r
+    fixed = _r.Random(20260929)                  # the triple set is part of the space definition, not of the seed
+    triples = list(dict.fromkeys(tuple(fixed.sample(names, 3)) for _ in range(800)))
     if ctx.quick():
         pairs = docs.sample(ctx.rng, pairs, 700)
+        triples = docs.sample(ctx.rng, triples, 60)
     ids, _ = E.builtin_meta()
     total_evals, total_nt, fails = 0, set(), []
     for mode, extra in (("scan", []), ("scan", ["-e", ",".join(ids)]), ("fix", [])):
-        seqs = pairs + triples if mode == "scan" else docs.sample(ctx.rng, pairs, 300 if ctx.quick() else 3000) + triples[:40 if ctx.quick() else 300]
+        seqs = pairs + triples if mode == "scan" else (docs.sample(ctx.rng, pairs, 300) + triples[:40] if ctx.quick() else pairs + triples[:300])
         ev, nt, fl = differential(ctx, pool, seqs, mode, extra)
         total_evals += ev; total_nt |= {(mode, tuple(extra)) + x for x in nt}; fails += fl
     sn_evals, sn_diffs = snapshot_check(ctx, texts)
